@@ -4,6 +4,10 @@
   Line syntax (one request per line, one answer line per request):
     H <Class> <opt>* :: <op> | <op> | …          run a history on a fresh object
     E <Class> <opt>* :: <ops> ## <ops>           run two histories on two fresh objects, then `a == b`
+    E <Class> <opt>* :: <ops> ## @<kind>[:<tag>] `a == x` for a foreign operand x (`Py.ForeignKind`: none int str bytes
+                                                 list object other; the tag names the other class on the Python side)
+    E <Class> <opt>* :: <ops> ## @sub:<Cls> | <ops>    x = an instance of the library subclass <Cls> of <Class>, given the
+                                                 listed (class-level) assignments;  @base:<Cls> likewise for a base class
     F <function> <arg>*                          a pure helper function
   Ops:  pack <v>* · unpack <xhex> <v>* · set <field> <v> · obs · iter · call <method> <v>*
         · len · getitem <int>        (container protocol: `len(obj)`, `obj[i]`; like `call`, they may change the state)
@@ -12,6 +16,7 @@
                                                        until the next successful unpack)
 -/
 import Acra.Py.Val
+import Acra.Py.Operand
 namespace Acra.Drv
 open Acra.Py
 
@@ -31,6 +36,11 @@ structure Codec where
   getitem : σ → Int → Option (σ × R Val) := fun _ _ => none
   /-- effect of `for x in obj: pass` on the state (the classes that keep an iteration cursor `_index`) -/
   iter : σ → σ := fun s => s
+  /-- `a == x` for any operand (`Py.Operand`): the `isinstance` guard of `__eq__` as written in the code -/
+  eqOp : Option (σ → Operand σ → R Bool) := none
+  /-- `a == x`, x an instance of a library proper subclass / base class (only classes that have such relatives) -/
+  eqSub : Option (σ → σ → R Bool) := none
+  eqBase : Option (σ → σ → R Bool) := none
 
 def resStr : R Val → String
   | .ok v => "ok:" ++ toString v
@@ -125,17 +135,49 @@ def runHistory (c : Codec) (opts : List String) (ops : String) : String :=
       let (_, _, out) := runOps c s (splitOps ops)
       "|".intercalate out
 
+def boolStr : R Bool → String
+  | .ok t => if t then "True" else "False"
+  | .error e => "err:" ++ e.name
+
+/-- the right-hand side of an `E` line that starts with `@`: a foreign operand, or an instance of a related class -/
+def runEqOperand (c : Codec) (sa : c.σ) (fresh : c.σ) (ops : List String) : String :=
+  match ops with
+  | [] => "bad-line"
+  | hd :: rest =>
+    match (hd.drop 1).toString.splitOn ":" with
+    | "sub" :: _ =>
+      match c.eqSub with
+      | none => "no-eqsub"
+      | some f =>
+        let (sb, db, _) := runOps c fresh rest
+        if db then "?" else boolStr (f sa sb)
+    | "base" :: _ =>
+      match c.eqBase with
+      | none => "no-eqbase"
+      | some f =>
+        let (sb, db, _) := runOps c fresh rest
+        if db then "?" else boolStr (f sa sb)
+    | kind :: _ =>
+      match ForeignKind.ofName kind, c.eqOp with
+      | some k, some f => boolStr (f sa (.foreign k))
+      | none, _ => "bad-operand"
+      | _, none => "no-eqop"
+    | [] => "bad-operand"
+
 def runEq (c : Codec) (opts : List String) (body : String) : String :=
   match parseVals opts, body.splitOn "##" with
   | some ov, [a, b] =>
     match c.fresh ov, c.fresh ov with
     | some sa, some sb =>
       let (sa', da, _) := runOps c sa (splitOps a)
+      if (b.trimAscii.toString).startsWith "@" then
+        if da then "?" else runEqOperand c sa' sb (splitOps b)
+      else
       let (sb', db, _) := runOps c sb (splitOps b)
       if da || db then "?" else
-      match c.eq sa' sb' with
-      | .ok t => if t then "True" else "False"
-      | .error e => "err:" ++ e.name
+      match c.eqOp with
+      | some f => boolStr (f sa' (.same sb'))
+      | none => boolStr (c.eq sa' sb')
     | _, _ => "bad-opts"
   | _, _ => "bad-line"
 
